@@ -346,6 +346,9 @@ func jsonSig(jp *jsonProgram, t types.Type, side string, depth int) string {
 		if o := jp.Objects[n.Obj().Name()]; o != nil {
 			return pre + objectSig(jp, o, side, depth)
 		}
+		if tgt := delegateTarget(jp.P, n); tgt != nil {
+			return pre + jsonSig(jp, tgt, side, depth+1)
+		}
 		if oo := jp.OneOfs[n.Obj().Name()]; oo != nil {
 			var vs []string
 			if st, ok := n.Underlying().(*types.Struct); ok {
